@@ -297,7 +297,10 @@ def check_c17(tier, seed, res, work):
     gen = querygen.QGen(rng, vocab)
     env_base = dict(ENV, HOME=work)
     for trial in range(N[tier]['C17']):
-        rdir = '%s/rules%d' % (work, trial)
+        # how the ruleset directory is named and spelled on the command line: absolute, relative, `./x/`, `.` from
+        # inside it, a dot-named directory, through `..`
+        spelling = trial % 6
+        rdir = '%s/%srules%d' % (work, '.' if spelling == 4 else '', trial)
         nrules = rng.randint(1, 8)
         bad_positions = set(rng.sample(range(nrules), rng.choice([0, 0, 1, 1, 2]) if nrules > 2 else rng.choice([0, 1])))
         rules = []
@@ -347,14 +350,19 @@ def check_c17(tier, seed, res, work):
         else:
             env.pop('GITHUB_ACTIONS', None)
             expected_path = outarg = '%s/%s' % (work, outname)
-        rc, o, e = run([B + '/pathfinder', 'ci', '--disable-metrics', '--project', proj, '--ruleset', rdir, '--output', fmt, '--output-file', outarg], timeout=300, env=env, cwd=work)
+        rs_arg, cwd_ = rdir, work
+        if os.path.isabs(outarg) and (not gha or os.path.isabs(ws)):
+            bn_ = os.path.basename(rdir)
+            rs_arg, cwd_ = [(rdir, work), (bn_, work), ('./' + bn_ + '/', work), ('.', rdir), (rdir, work), ('../' + os.path.basename(work) + '/' + bn_, work)][spelling]
+            stats['ruleset_spelling_%d' % spelling] += 1
+        rc, o, e = run([B + '/pathfinder', 'ci', '--disable-metrics', '--project', proj, '--ruleset', rs_arg, '--output', fmt, '--output-file', outarg], timeout=300, env=env, cwd=cwd_)
         stats['ci_runs'] += 1
         stats['fmt_' + fmt] += 1
         stats['gha_' + str(gha)] += 1
         stats['rules'] += nrules
         stats['bad_rules'] += len(bad_positions)
         replay = dict(property='C17', ruleset=[(n, t.decode('utf-8', 'replace')) for n, t in rules], project=[(p, d.decode('utf-8', 'replace')) for p, d in files],
-                      how='pathfinder ci --project P --ruleset R --output %s --output-file F%s' % (fmt, ' with GITHUB_ACTIONS=true GITHUB_WORKSPACE=W' if gha else ''))
+                      how='pathfinder ci --project P --ruleset %s --output %s --output-file F%s' % (rs_arg if not os.path.isabs(rs_arg) else 'R', fmt, ' with GITHUB_ACTIONS=true GITHUB_WORKSPACE=W' if gha else ''))
         if wrong_place and os.path.normpath(wrong_place) != expected_path and os.path.exists(wrong_place):
             res.violations.append(dict(replay, what='under GitHub Actions variables the report was written outside the workspace directory', written=wrong_place,
                                        expected_path=expected_path, env=dict(GITHUB_ACTIONS='true', GITHUB_WORKSPACE=ws), output_file=outarg))
